@@ -311,11 +311,13 @@ class History:
             second.define(f'{nm} == {s2}')
             t1 = self.export(aut.add_expr(s1 if first is aut else s2))
             t2 = self.export(aut.add_expr(s2 if first is aut else s1))
-            aut.init[f'o{self.n_decl}'] = nm
-            cp.init[f'o{self.n_decl}'] = nm
-            self.tracked.append((f'operator {nm} in the original', aut.init[f'o{self.n_decl}'], t1))
-            self.tracked.append((f'operator {nm} in the copy', cp.init[f'o{self.n_decl}'], t2))
-            aut.init.pop(f'o{self.n_decl}')
+            box = rnd.choice(['init', 'action'])        # both containers of the copy must belong to the copy
+            key = f'o{self.n_decl}'
+            getattr(aut, box)[key] = nm
+            getattr(cp, box)[key] = nm
+            self.tracked.append((f'operator {nm} in the original ({box})', getattr(aut, box)[key], t1))
+            self.tracked.append((f'operator {nm} in the copy ({box})', getattr(cp, box)[key], t2))
+            getattr(aut, box).pop(key)
         elif op == 'V':
             # the same expression twice gives the same answer
             s = self.formula()
